@@ -22,6 +22,7 @@ from ..cfg import CFG
 from ..core import Ctx, PropSpec, Unsupported
 from ..extract import where
 from ..facts import FactFlow, entails
+from ..normalize import inline_helpers
 from ..harness import Harness
 from ..interp import ExcVal, Obj, Raised
 from ..models import ccsds_bytes, make_interp, raw_packet, source_externals
@@ -75,6 +76,7 @@ def guarded_advance(ctx: Ctx):
     ci = prog.cls("RawPacketData")
     n_adv = 0
     for mname, fi in ci.methods.items():
+        fi = inline_helpers(prog, fi)
         advs = [n for n in walk_local(fi.node) if isinstance(n, (ast.AugAssign, ast.Assign)) and
                 any(dotted(t) == f"{fi.params[0]}.pos" for t in ([n.target] if isinstance(n, ast.AugAssign) else n.targets))] \
             if fi.params else []
@@ -90,11 +92,17 @@ def guarded_advance(ctx: Ctx):
         ff = FactFlow(cfg, b)
         for adv in advs:
             n_adv += 1
-            if not (isinstance(adv, ast.AugAssign) and isinstance(adv.op, ast.Add)):
-                ctx.unknown("R14.1", f"{fi.key}::{norm(adv)}", "cursor written by something other than `pos += n`", where=where(fi, adv))
-                continue
+            if mname in ("__init__", "__new__"):
+                continue        # initialisation of the cursor is not an advance
             try:
-                d = b.build(adv.value)
+                if isinstance(adv, ast.AugAssign) and isinstance(adv.op, ast.Add):
+                    d = b.build(adv.value)
+                elif isinstance(adv, ast.Assign) and len(adv.targets) == 1:
+                    d = b.build(adv.value) - Aff.atom(f"{SELF}.pos")       # pos = E  advances by E - pos
+                else:
+                    ctx.unknown("R14.1", f"{fi.key}::{norm(adv)}", "cursor written by something other than `pos += n` / `pos = e`",
+                                where=where(fi, adv))
+                    continue
             except Unsupported as e:
                 ctx.unknown("R14.1", f"{fi.key}::{norm(adv)}", str(e))
                 continue
@@ -379,6 +387,7 @@ SPEC = PropSpec(
     title="Bit consumption is accounted for; over-reads are never delivered as clean data",
     check=check,
     floors={"R14.1": 6, "R14.2": 4, "R14.3": 2, "R14.4": 6},
+    fallback={"R14.1": ("R14.4",)},
     explanation=("R14.1: forward must-facts over the CFG of each RawPacketData method that advances the cursor: at every "
                  "`self.pos += n` the facts `8*len(self) - pos - n >= 0` and `n >= 0` must have been established by "
                  "raising guards on every path; otherwise a witness path plus a small integer model of (path facts AND "
